@@ -108,49 +108,80 @@ Section Keywords.
       + inversion H; subst. cbn. lia.
   Qed.
 
-  Lemma expand_ints_app (e : env) n (toks ovr : list string) acc us r3 :
-    expand_ints e n toks acc = Ok (us, r3) ->
-    expand_ints e n (toks ++ ovr) acc = Ok (us, (r3 ++ ovr)%list).
+  Lemma expand_ints_app (e : env) n (ovr : list string) : forall k toks acc us r3,
+    (List.length toks <= k)%nat ->
+    expand_ints SC e n toks acc = Ok (us, r3) ->
+    expand_ints SC e n (toks ++ ovr) acc = Ok (us, (r3 ++ ovr)%list).
   Proof.
-    revert acc. induction toks as [|t r IH]; intros acc H.
-    - cbn in H. cbn [app].
+    induction k as [|k IH]; intros toks acc us r3 Hk H.
+    - destruct toks; [|cbn in Hk; lia]. cbn in H. cbn [app].
       destruct ovr as [|o ovr']; [rewrite app_nil_r; exact H|].
       cbn [expand_ints].
       destruct (Nat.leb n (List.length acc)) eqn:E.
       + destruct (Nat.eqb (List.length acc) n); inversion H; subst; reflexivity.
       + destruct (Nat.eqb (List.length acc) n) eqn:E2; [|discriminate].
         apply Nat.eqb_eq in E2. apply Nat.leb_gt in E. lia.
-    - cbn [app expand_ints] in *.
-      destruct (Nat.leb n (List.length acc)).
-      + destruct (Nat.eqb (List.length acc) n); inversion H; subst; reflexivity.
-      + destruct (match last_char t with Some c => Ascii.eqb c "r" | None => false end).
-        * destruct (match t with String _ EmptyString => Some 1%Z | _ => pyint (drop_last 1 t) end);
-            [|discriminate].
-          destruct acc as [|x acc']; [discriminate|]. apply IH, H.
-        * destruct (ends_unsupported t); [discriminate|].
-          destruct (pyround e t); [|discriminate]. apply IH, H.
+    - destruct toks as [|t r].
+      + apply (IH [] acc us r3); [cbn; lia|exact H].
+      + cbn [app expand_ints] in *. cbn in Hk.
+        destruct (Nat.leb n (List.length acc)).
+        { destruct (Nat.eqb (List.length acc) n); inversion H; subst; reflexivity. }
+        destruct (last_is "r" t).
+        { destruct (count_tok t); [|discriminate].
+          destruct acc as [|x acc']; [discriminate|]. apply IH; [lia|exact H]. }
+        destruct (last_is "i" t).
+        { destruct acc as [|lo acc']; [discriminate|].
+          destruct r as [|up r']; [discriminate|]. cbn [app].
+          destruct (pyfloat e up); [|discriminate].
+          destruct lo; [|discriminate].
+          destruct (count_tok t); [|discriminate].
+          destruct (z + 1 =? 0)%Z; [discriminate|]. apply IH; [cbn in Hk; lia|exact H]. }
+        destruct (last_is "m" t).
+        { destruct t as [|c [|c' t']]; try discriminate;
+            (destruct (pyfloat e _); [|discriminate]);
+            (destruct acc as [|[v|] acc']; try discriminate); (apply IH; [lia|exact H]). }
+        destruct (last_is "j" t).
+        { destruct (count_tok t); [|discriminate]. apply IH; [lia|exact H]. }
+        destruct (String.eqb (take_last 3 t) "log"); [discriminate|].
+        destruct (pyfloat e t); [|discriminate]. apply IH; [lia|exact H].
   Qed.
 
-  Lemma expand_ints_length (e : env) n (toks : list string) acc us r3 :
-    expand_ints e n toks acc = Ok (us, r3) -> (List.length r3 <= List.length toks)%nat.
+  Lemma expand_ints_length (e : env) n : forall k toks acc us r3,
+    (List.length toks <= k)%nat ->
+    expand_ints SC e n toks acc = Ok (us, r3) -> (List.length r3 <= List.length toks)%nat.
   Proof.
-    revert acc. induction toks as [|t r IH]; intros acc H.
-    - cbn in H. destruct (Nat.leb n (List.length acc));
+    induction k as [|k IH]; intros toks acc us r3 Hk H.
+    - destruct toks; [|cbn in Hk; lia]. cbn in H.
+      destruct (Nat.leb n (List.length acc));
         destruct (Nat.eqb (List.length acc) n); inversion H; subst; cbn; lia.
-    - cbn [expand_ints] in H.
-      destruct (Nat.leb n (List.length acc)).
-      + destruct (Nat.eqb (List.length acc) n); inversion H; subst; cbn; lia.
-      + destruct (match last_char t with Some c => Ascii.eqb c "r" | None => false end).
-        * destruct (match t with String _ EmptyString => Some 1%Z | _ => pyint (drop_last 1 t) end);
-            [|discriminate].
-          destruct acc as [|x acc']; [discriminate|]. apply IH in H. cbn. lia.
-        * destruct (ends_unsupported t); [discriminate|].
-          destruct (pyround e t); [|discriminate]. apply IH in H. cbn. lia.
+    - destruct toks as [|t r].
+      + apply (IH [] acc us r3); [cbn; lia|exact H].
+      + cbn [expand_ints] in H. cbn in Hk.
+        destruct (Nat.leb n (List.length acc)).
+        { destruct (Nat.eqb (List.length acc) n); inversion H; subst; cbn; lia. }
+        destruct (last_is "r" t).
+        { destruct (count_tok t); [|discriminate].
+          destruct acc as [|x acc']; [discriminate|]. apply IH in H; [cbn; lia|lia]. }
+        destruct (last_is "i" t).
+        { destruct acc as [|lo acc']; [discriminate|].
+          destruct r as [|up r']; [discriminate|].
+          destruct (pyfloat e up); [|discriminate].
+          destruct lo; [|discriminate].
+          destruct (count_tok t); [|discriminate].
+          destruct (z + 1 =? 0)%Z; [discriminate|]. apply IH in H; [cbn; lia|cbn in Hk; lia]. }
+        destruct (last_is "m" t).
+        { destruct t as [|c [|c' t']]; try discriminate;
+            (destruct (pyfloat e _); [|discriminate]);
+            (destruct acc as [|[v|] acc']; try discriminate); (apply IH in H; [cbn; lia|lia]). }
+        destruct (last_is "j" t).
+        { destruct (count_tok t); [|discriminate]. apply IH in H; [cbn; lia|lia]. }
+        destruct (String.eqb (take_last 3 t) "log"); [discriminate|].
+        destruct (pyfloat e t); [|discriminate]. apply IH in H; [cbn; lia|lia].
   Qed.
 
   (* a successful expansion of n > 0 entries consumed something *)
   Lemma expand_ints_nonempty (e : env) n us r3 :
-    (0 < n)%nat -> expand_ints e n [] [] = Ok (us, r3) -> False.
+    (0 < n)%nat -> expand_ints SC e n [] [] = Ok (us, r3) -> False.
   Proof.
     intros Hn H. cbn in H. destruct n; [lia|]. cbn in H. discriminate.
   Qed.
@@ -177,7 +208,7 @@ Section Keywords.
     - destruct (span (contains_char ":") r1) as [bs r2] eqn:E.
       destruct (map_opt parse_range (first :: bs)) as [bounds|] eqn:Eb; [|discriminate].
       destruct (bounds_size bounds <=? 0)%Z eqn:Esz; [discriminate|].
-      destruct (expand_ints e (Z.to_nat (bounds_size bounds)) r2 []) as [[us r3]|] eqn:Ex;
+      destruct (expand_ints SC e (Z.to_nat (bounds_size bounds)) r2 []) as [[us r3]|] eqn:Ex;
         [|discriminate].
       assert (Hr2 : r2 <> []).
       { intros ->.
@@ -185,7 +216,7 @@ Section Keywords.
         apply Z.leb_gt in Esz. lia. }
       rewrite (span_app _ r1 ovr bs r2 E (or_introl Hr2)).
       cbv beta iota zeta. rewrite Eb, Esz.
-      rewrite (expand_ints_app e _ r2 ovr [] us r3 Ex).
+      rewrite (expand_ints_app e _ ovr _ r2 [] us r3 (le_n _) Ex).
       cbn [bind] in *.
       destruct (span numeric_start r3) as [ps r'] eqn:E3.
       rewrite (span_app numeric_start r3 ovr ps r' E3 (or_intror Hk)).
@@ -237,14 +268,14 @@ Section Keywords.
     - destruct (span (contains_char ":") r1) as [bs r2] eqn:E.
       destruct (map_opt parse_range (first :: bs)) as [bounds|]; [|discriminate].
       destruct (bounds_size bounds <=? 0)%Z; [discriminate|].
-      destruct (expand_ints e (Z.to_nat (bounds_size bounds)) r2 []) as [[us r3]|] eqn:Ex;
+      destruct (expand_ints SC e (Z.to_nat (bounds_size bounds)) r2 []) as [[us r3]|] eqn:Ex;
         [|discriminate].
       cbn [bind] in H.
       destruct (span numeric_start r3) as [ps r'] eqn:E3.
       destruct (map_opt (pyfloat e) ps); [|discriminate].
       destruct (fill_params SC false e elt ps l); cbn in H; [|discriminate].
       inversion H; subst.
-      apply span_length in E. apply span_length in E3. apply expand_ints_length in Ex.
+      apply span_length in E. apply span_length in E3. apply (expand_ints_length e _ _ r2 [] us r3 (le_n _)) in Ex.
       cbn. lia.
     - destruct (pytrunc e first); [|discriminate]. cbn [bind] in H.
       destruct (span numeric_start r1) as [ps r'] eqn:E3.
@@ -534,7 +565,7 @@ Section Witness.
   Definition wenv : env (T:=T) :=
     mkEnv (fun s => if String.eqb s "0" then Some v0
                     else if String.eqb s "1" then Some v1 else None)
-          (fun _ => None) (fun _ => None) (fun _ => None) (fun _ => None) (fun v => Ok v)
+          (fun _ => None) (fun _ => 0%Z) (fun _ => None) (fun _ => None) (fun v => Ok v)
           (fun s => s) (fun s => Some s) [] (fun _ => None).
 
   Definition wtbl : table :=
@@ -572,7 +603,7 @@ Section Example.
     mkEnv (fun s => if String.eqb s "0" then Some v0
                     else if String.eqb s "1" then Some v1 else None)
           (fun s => if String.eqb s "0" then Some 0%Z else None)
-          (fun _ => None) (fun s => if String.eqb s "0" then Some 0%Z else None)
+          (fun _ => 0%Z) (fun s => if String.eqb s "0" then Some 0%Z else None)
           (fun n => if (n =? 0)%Z then Some [v0] else None) (fun v => Ok v)
           (fun s => s) (fun s => Some s) [] (fun _ => None).
 
